@@ -7,16 +7,23 @@ Three corners:
       wrote (re-parsed with lxml: one attribute / one element per value / xsi:nil / nothing) and
       the values pyecore loads; str.isspace over every code point; str.split; fragments; the
       order in which a many-valued bidirectional end is filled from edited (one-sided) documents
+  whole documents (harness/xmidoc.py, Model/XmiDoc.v, theorem C08_document_round_trip): on generated
+      metamodels / models restricted to the modelled fragment (one package, positional fragments, no uuid)
+      (a) the infoset of the bytes the real save wrote = run_xmidoc_enc on the abstract forest read from
+      the real objects, (b) the observation of the real load of those bytes = run_xmidoc_dec on that
+      infoset, and every generated state satisfies the premise wf_forest of the theorem
   oracle: generated metamodels x models x options, save, load in a fresh ResourceSet, equal
       canonical dumps (harness/ser_gen.dump) and the C01-C03 statements on the loaded model.
 """
 import os
+import random
 import tempfile
 import time
 
 from harness import common
 from harness import ser_gen as G
 from harness import ser_rt as R
+from harness import xmidoc as XD
 
 PROP = 'C08'
 XSI_NIL = '{http://www.w3.org/2001/XMLSchema-instance}nil'
@@ -413,6 +420,38 @@ def regression_cases():
     return cases
 
 
+def corr_xmidoc(out, model, st, rng, n_cases, t_end, oracle_stats):
+    """whole documents: real save vs encode_doc, real load vs decode_doc (harness/xmidoc.py).  A case on which the
+    tie breaks is also handed to the oracle, so that a regression of save/load comes with a failing input."""
+    serial = 0
+    tried = 0
+    seen = {}
+    while tried < n_cases and time.time() < t_end:
+        mm = XD.gen_case(rng, 1000 + serial)
+        serial += 1
+        st['metamodels'] = st.get('metamodels', 0) + 1
+        built = G.Built(mm)
+        for _ in range(4):
+            if tried >= n_cases or time.time() > t_end:
+                break
+            md = XD.restrict_md(mm, G.gen_model(rng, mm, 'xmi', odd_ids=False))
+            opts = XD.gen_options(rng)
+            tried += 1
+            before = len(out.corr_diffs)
+            try:
+                XD.run_case(out, model.ask, st, mm, md, opts, built)
+            except Exception as e:          # noqa
+                import traceback
+                out.diff(f'xmidoc: the case could not be carried out: {type(e).__name__}: {e}',
+                         {'mm': mm, 'md': md, 'format': 'xmi', 'options': opts, 'traceback': traceback.format_exc()[-800:]})
+            if len(out.corr_diffs) > before and st.get('handed_to_oracle', 0) < 6:
+                st['handed_to_oracle'] = st.get('handed_to_oracle', 0) + 1
+                R.run_case(PROP, 'xmi', out, oracle_stats, mm, md, opts, lambda: time.time() + 6, seen)
+            if len(st.setdefault('samples', [])) < 2 and len(md['objs']) >= 3:
+                st['samples'].append({'options': opts, 'model': md, 'classes': [c['name'] for c in mm['classes']]})
+    st['tried'] = tried
+
+
 def guarded(out, name, f, *args, **kw):
     """a correspondence section that cannot even observe the implementation is a difference, and the run goes on"""
     try:
@@ -440,10 +479,19 @@ def run(ctx, out):
     guarded(out, 'reference lists', corr_refs, out, model, st, rng, built, mm, 1500 if thorough else 150)
     guarded(out, 'bidirectional ends', corr_refload, out, model, st, rng, built, mm, 1500 if thorough else 150)
     guarded(out, 'attribute values', corr_attributes, out, model, st, rng, built, mm, t0 + budget * 0.45)
-    model.close()
     stats = R.new_stats()
+    # whole documents: extra time on top of the budget of the other sections (quick: <= 20 s)
+    tx = time.time()
+    xst = {}
+    # (its own generator, derived from the seed: the case stream of the oracle below stays what it was)
+    xrng = random.Random(f'xmidoc-{ctx.seed}')
+    guarded(out, 'whole documents', corr_xmidoc, out, model, xst, xrng, 6000 if thorough else 400,
+            tx + (150 if thorough else 18), stats)
+    budget += time.time() - tx
+    model.close()
     R.oracle_loop(PROP, 'xmi', ctx, out, max(5, t0 + budget - time.time()), stats, regression_cases())
-    traces = st['attr_documents'] + st['ref_documents'] + st['refload_documents'] + st['split_strings'] + 1
+    traces = st['attr_documents'] + st['ref_documents'] + st['refload_documents'] + st['split_strings'] + 1 \
+        + 2 * xst.get('cases', 0)
     out.coverage.update({
         'evaluations': stats['cases'] + traces,
         'oracle_cases': stats['cases'],
@@ -451,9 +499,14 @@ def run(ctx, out):
         'rule': 'oracle: a case = (generated metamodel, generated model, save options) saved as XMI and loaded in a fresh '
                 'ResourceSet; distinct_nontrivial = number of distinct canonical dumps among them. correspondence: a trace = '
                 'one document written by pyecore whose infoset (attribute / elements / nil / absent) and loaded values are '
-                'compared with the extracted Coq model, plus isspace over all 0x110000 code points and split() samples',
+                'compared with the extracted Coq model, plus isspace over all 0x110000 code points and split() samples; '
+                'xmidoc_cases = whole documents (generated metamodel + model + options) whose infoset written by the real '
+                'save equals encode_doc AND whose real load equals decode_doc (two traces each)',
         'traces_validated_against_impl': traces,
         'correspondence': st,
+        'xmidoc_cases': xst.get('cases', 0),
+        'xmidoc': {k: v for k, v in xst.items() if k != 'samples'},
+        'xmidoc_samples': xst.get('samples', []),
         'metamodels': stats['metamodels'], 'regression_cases': stats['regression_cases'],
         'failing_cases': stats['failing_cases'], 'shrink_steps': stats['shrink_steps'],
         'distribution': {'options': stats['options'], 'roots': stats['roots'], 'objects': stats['objects'],
@@ -465,7 +518,12 @@ def run(ctx, out):
         'isomorphism = equality of harness/ser_gen.dump: floats/decimals/dates compared by value (-0.0 = 0.0, 1.10 = 1.1, '
         'aware dates by instant), NaN not generated, an enumeration value given by name equals the literal of that name',
         'id attribute values are unique inside a resource; references stay inside the resource (cross-resource: C14)',
-        'the semantic round trip is checked by the oracle, not proved (Props/C08.v header)',
+        'whole-document theorem (C08_document_round_trip): names are numbers, the infoset is taken after namespace '
+        'processing (the root binds xsi and the package prefix whenever a type attribute occurs: checked on every '
+        'document), child elements of different features are compared up to their order (insertion order of _isset), '
+        'values equal under == carry one text, enumeration values are literals; uuid mode, id attributes as fragments, '
+        'several packages, proxies and the opposite handshakes of load are outside Model/XmiDoc.v and rest on the '
+        'oracle (Props/C08.v header)',
     ]
 
 
